@@ -195,6 +195,7 @@ impl Recorder {
 
         self.flip_retype(_shard, _shards);
         self.lonely_commits(_shard, _shards);
+        self.learn_last_then_flip(_shard, _shards);
         for _ in 0..rounds {
             clean_home(&self.home);
             let mut stamp = 1u64;
@@ -453,22 +454,28 @@ impl Recorder {
                             self.emit(json!({"ev": "update", "cfg": cfg_json(&cur), "ongoing": o.ongoing, "panic": o.panic.clone().unwrap_or_default()}));
                             if o.kind == "panic" { break 'passes; }
                         }
-                        let mut w = Word::new();
-                        for (i, (code, m)) in plan.iter().enumerate() {
-                            let o = ctx.key(*code, *m, 0);
-                            if o.kind == "panic" {
-                                self.emit(merge(json!({"ev": "key", "code": code, "mod": m, "sel": 0, "fresh": "na", "fwhat": ""}), Self::ret_fields(&o)));
-                                break 'passes;
+                        // (under the flipped configuration the word is followed by ANOTHER word: whatever is remembered "for the last
+                        // word" then belongs to that one when the first configuration comes back)
+                        let other: &Vec<(u16, u8)> = &plans[(n + 1) % plans.len()];
+                        let texts: Vec<&Vec<(u16, u8)>> = if pass == 1 { vec![plan, other] } else { vec![plan] };
+                        for plan in texts {
+                            let mut w = Word::new();
+                            for (i, (code, m)) in plan.iter().enumerate() {
+                                let o = ctx.key(*code, *m, 0);
+                                if o.kind == "panic" {
+                                    self.emit(merge(json!({"ev": "key", "code": code, "mod": m, "sel": 0, "fresh": "na", "fwhat": ""}), Self::ret_fields(&o)));
+                                    break 'passes;
+                                }
+                                let ch = self.keys.char_for_code(*code);
+                                if cur.is_phonetic() { if let Some(c) = ch { w.comp.push(c); } } else { w.keys.push((*code, *m)); }
+                                let (f, what) = if i + 1 == plan.len() || i == 0 { self.shadow_compare(&cur, &w, &o, true, 0) } else { ("skip", String::new()) };
+                                let af = self.ansi_facts(&o);
+                                self.emit(merge(merge(json!({"ev": "key", "code": code, "mod": m, "sel": 0, "fresh": f, "fwhat": what}), Self::ret_fields(&o)), af));
                             }
-                            let ch = self.keys.char_for_code(*code);
-                            if cur.is_phonetic() { if let Some(c) = ch { w.comp.push(c); } } else { w.keys.push((*code, *m)); }
-                            let (f, what) = if i + 1 == plan.len() || i == 0 { self.shadow_compare(&cur, &w, &o, true, 0) } else { ("skip", String::new()) };
-                            let af = self.ansi_facts(&o);
-                            self.emit(merge(merge(json!({"ev": "key", "code": code, "mod": m, "sel": 0, "fresh": f, "fwhat": what}), Self::ret_fields(&o)), af));
+                            let o = ctx.finish();
+                            self.emit(json!({"ev": "finish", "ongoing": o.ongoing, "panic": o.panic.clone().unwrap_or_default()}));
+                            if o.kind == "panic" { break 'passes; }
                         }
-                        let o = ctx.finish();
-                        self.emit(json!({"ev": "finish", "ongoing": o.ongoing, "panic": o.panic.clone().unwrap_or_default()}));
-                        if o.kind == "panic" { break 'passes; }
                     }
                 }
             }
@@ -526,6 +533,77 @@ impl Recorder {
                 self.emit(json!({"ev": "commit", "idx": idx, "ongoing": o.ongoing, "panic": o.panic.clone().unwrap_or_default(),
                                  "filechg": before != after, "learnable": learnable}));
                 if o.kind == "panic" { break 'steps; }
+            }
+        }
+    }
+
+    /// Directed: a choice that exists only under some option is learned - the LAST candidate of the list (the typed English
+    /// text, or an emoji) - the word is typed again and committed as preselected; then update-engine (or a restart with the
+    /// other configuration) takes the option away and the word, and the word + a suffix, are typed again: the list is
+    /// shorter now, its preselected index must lie inside it (C02), nothing the new configuration forbids is offered (C16),
+    /// and it is the list of a brand-new context (C11).
+    fn learn_last_then_flip(&mut self, shard: usize, shards: usize) {
+        let base = Cfg { layout: "phonetic".into(), psug: true, english: true, ansi: false, smart: false, db: true, ..Default::default() };
+        let mut n = 0usize;
+        for word in ["help", "ami", "atm", "smile"] {
+            for (flip, restart) in [(0usize, false), (1, false), (0, true), (1, true)] {
+                n += 1;
+                if n % shards.max(1) != shard % shards.max(1) {
+                    continue;
+                }
+                let after = if flip == 0 { Cfg { ansi: true, ..base.clone() } } else { Cfg { english: false, ..base.clone() } };
+                clean_home(&self.home);
+                let mut ctx = match Ctx::new(&base, &self.home) { Ok(c) => c, Err(_) => continue };
+                self.emit(json!({"ev": "new", "cfg": cfg_json(&base)}));
+                let mut cur = base.clone();
+                let store = self.home.join("openbangla-keyboard/phonetic-candidate-selection.json");
+                // (text, commit: 0 = LAST index, 1 = the preselected one, 2 = finish)
+                let sfx = format!("{}ta", word);
+                let steps: Vec<(bool, &str, usize)> = vec![(false, word, 0), (false, word, 1), (true, word, 1), (false, sfx.as_str(), 2), (false, word, 2)];
+                'steps: for (switch, text, how) in steps {
+                    if switch {
+                        if restart {
+                            drop(ctx);
+                            ctx = match Ctx::new(&after, &self.home) { Ok(c) => c, Err(_) => break 'steps };
+                            self.emit(json!({"ev": "new", "cfg": cfg_json(&after), "restart": true}));
+                        } else {
+                            let o = ctx.update(&after);
+                            self.emit(json!({"ev": "update", "cfg": cfg_json(&after), "ongoing": o.ongoing, "panic": o.panic.clone().unwrap_or_default()}));
+                            if o.kind == "panic" { break 'steps; }
+                        }
+                        cur = after.clone();
+                    }
+                    let mut w = Word::new();
+                    let mut last = Obs::default();
+                    let len = text.chars().count();
+                    for (i, ch) in text.chars().enumerate() {
+                        let code = self.keys.code_for_char(ch).unwrap();
+                        let sel = if last.kind == "full" && !last.cands.is_empty() { last.sel.min(last.cands.len() - 1).min(255) as u8 } else { 0 };
+                        let o = ctx.key(code, 0, sel);
+                        if o.kind == "panic" {
+                            self.emit(merge(json!({"ev": "key", "code": code, "mod": 0, "sel": sel, "fresh": "na", "fwhat": ""}), Self::ret_fields(&o)));
+                            break 'steps;
+                        }
+                        w.comp.push(ch);
+                        let (f, what) = if i + 1 == len { self.shadow_compare(&cur, &w, &o, true, sel) } else { ("skip", String::new()) };
+                        let af = self.ansi_facts(&o);
+                        self.emit(merge(merge(json!({"ev": "key", "code": code, "mod": 0, "sel": sel, "fresh": f, "fwhat": what}), Self::ret_fields(&o)), af));
+                        last = o;
+                    }
+                    let n_c = last.len();
+                    if how == 2 || n_c == 0 {
+                        let o = ctx.finish();
+                        self.emit(json!({"ev": "finish", "ongoing": o.ongoing, "panic": o.panic.clone().unwrap_or_default()}));
+                        continue;
+                    }
+                    let idx = if how == 0 { n_c - 1 } else { last.sel.min(n_c - 1) };
+                    let before = std::fs::read(&store).ok();
+                    let o = ctx.commit(idx);
+                    let after_b = std::fs::read(&store).ok();
+                    self.emit(json!({"ev": "commit", "idx": idx, "ongoing": o.ongoing, "panic": o.panic.clone().unwrap_or_default(),
+                                     "filechg": before != after_b, "learnable": last.kind == "full" && idx != last.sel}));
+                    if o.kind == "panic" { break 'steps; }
+                }
             }
         }
     }
